@@ -2,8 +2,17 @@
   C19 — cell labels and row/column indices correspond one-to-one.
   Property theorems about `HotXL.Cell` (model of hotxlfp/helper/cell.py) over the
   tables regenerated from /repo (`HotXL.Generated`).
+
+  "Column letters and zero-based column indices correspond one-to-one in bijective base-26 order
+   (A=0, Z=25, AA=26, ...), case-insensitively on input, and row labels and zero-based row indices
+   by label = index+1.  Decomposing any cell label (letters then a positive row number without
+   leading zeros, with or without $ markers) into its row and column parts and recomposing them
+   yields the same label in upper case, with the absolute markers reported faithfully.  Strings
+   that are not cell labels decompose to nothing."
 -/
 import HotXL.Model.Cell
+import HotXL.Lemmas.PyNum
+import HotXL.Lemmas.Cell
 
 namespace HotXL.Props.C19
 open HotXL HotXL.Cell
@@ -17,5 +26,298 @@ theorem regexp_is_the_modelled_one : Generated.labelExtractRegexp = Cell.expecte
 
 /-- `chr(… + 97)` then `.upper()`: the offset is that of the lower-case alphabet -/
 theorem chr_offset : Generated.columnChrOffset = 97 := by decide
+
+/-! ## columns -/
+
+/-- `column_label_to_index(column_index_to_label(n)) = n` for every column number `n ≥ 0`:
+    distinct column numbers get distinct labels, and the label can be read back. -/
+theorem col_left_inv : ∀ n : Nat, colLabelToIndex (colIndexToLabel (n : Int)) = (n : Int) := by
+  intro n
+  obtain ⟨_, hup, hval⟩ := colIndexToLabel_spec n
+  rw [colLabelToIndex_upper hup, hval]
+  omega
+
+/-- `column_index_to_label(column_label_to_index(l)) = l` for every non-empty label `l` made of
+    upper-case letters A–Z: every such label is the label of exactly one column number. -/
+theorem col_right_inv : ∀ l : List Char, l ≠ [] → (∀ c ∈ l, isUpperAZ c = true) →
+    colIndexToLabel (colLabelToIndex l) = l := by
+  intro l hne hup
+  have hpos := colVal_pos hne hup
+  rw [colLabelToIndex_upper hup,
+    show (colVal l : Int) - 1 = ((colVal l - 1 : Nat) : Int) by omega]
+  exact colIndexToLabel_colVal l hne hup
+
+example : colIndexToLabel (colLabelToIndex "XFD".toList) = "XFD".toList :=
+  col_right_inv _ (by decide) (by decide)
+
+/-- the column number of a non-empty all-letter label (either case) is `≥ 0`; together with
+    `col_left_inv` / `col_right_inv` this makes `column_label_to_index` a bijection between
+    non-empty upper-case labels and the natural numbers. -/
+theorem col_index_nonneg : ∀ l : List Char, l ≠ [] → (∀ c ∈ l, isLetter c = true) →
+    0 ≤ colLabelToIndex l := by
+  intro l hne hl
+  have hup := all_upper_upper hl
+  have hne' : upper l ≠ [] := fun h => hne (upper_eq_nil_iff.mp h)
+  have hpos := colVal_pos hne' hup
+  unfold colLabelToIndex
+  rw [colSum_eq_colVal hup]
+  omega
+
+example : 0 ≤ colLabelToIndex "aZ".toList := col_index_nonneg _ (by decide) (by decide)
+
+/-- the label produced for a column number `n ≥ 0` is non-empty and consists of upper-case
+    letters A–Z only (so it is in the domain of `col_right_inv`). -/
+theorem col_label_wellformed : ∀ n : Nat, colIndexToLabel (n : Int) ≠ [] ∧
+    ∀ c ∈ colIndexToLabel (n : Int), isUpperAZ c = true := by
+  intro n
+  obtain ⟨h1, h2, _⟩ := colIndexToLabel_spec n
+  exact ⟨h1, h2⟩
+
+/-- `column_label_to_index` is injective on non-empty upper-case labels -/
+theorem col_label_injective : ∀ a b : List Char, a ≠ [] → b ≠ [] →
+    (∀ c ∈ a, isUpperAZ c = true) → (∀ c ∈ b, isUpperAZ c = true) →
+    colLabelToIndex a = colLabelToIndex b → a = b := by
+  intro a b ha hb hua hub h
+  rw [← col_right_inv a ha hua, ← col_right_inv b hb hub, h]
+
+example : "QX".toList = "QX".toList :=
+  col_label_injective _ _ (by decide) (by decide) (by decide) (by decide) rfl
+
+/-- `column_label_to_index` upper-cases its input first: upper-casing beforehand changes nothing. -/
+theorem col_case_insensitive : ∀ l : List Char, colLabelToIndex (upper l) = colLabelToIndex l := by
+  intro l
+  unfold colLabelToIndex
+  rw [upper_idem]
+
+/-- `column_label_to_index` gives the same number for the lower-cased label (`lower` = ASCII
+    `str.lower()`, `Cell.lower` in `HotXL/Lemmas/Cell.lean`). Holds for every string. -/
+theorem col_case_insensitive_lower : ∀ l : List Char,
+    colLabelToIndex (lower l) = colLabelToIndex l := by
+  intro l
+  unfold colLabelToIndex
+  rw [upper_lower]
+
+example : lower "aBz".toList = "abz".toList := by decide
+example : colLabelToIndex "xfd".toList = colLabelToIndex "XFD".toList := by
+  rw [← col_case_insensitive "xfd".toList]
+  rfl
+
+/-- bijective base-26 order: for non-empty upper-case labels, the column numbers are ordered
+    first by label length and then lexicographically (by code point). -/
+theorem col_shortlex : ∀ a b : List Char, a ≠ [] → b ≠ [] →
+    (∀ c ∈ a, isUpperAZ c = true) → (∀ c ∈ b, isUpperAZ c = true) →
+    (colLabelToIndex a < colLabelToIndex b ↔
+      (a.length < b.length ∨ (a.length = b.length ∧ a < b))) := by
+  intro a b _ _ ha hb
+  rw [colLabelToIndex_upper ha, colLabelToIndex_upper hb]
+  have hiff : (colVal a : Int) - 1 < (colVal b : Int) - 1 ↔ colVal a < colVal b := by omega
+  rw [hiff]
+  rcases Nat.lt_trichotomy a.length b.length with hlt | heq | hgt
+  · have := colVal_lt_of_length_lt ha hb hlt
+    constructor
+    · intro _; exact Or.inl hlt
+    · intro _; exact this
+  · rw [colVal_lt_iff_lex a b heq ha hb]
+    constructor
+    · intro h; exact Or.inr ⟨heq, h⟩
+    · intro h
+      rcases h with h | ⟨_, h⟩
+      · omega
+      · exact h
+  · have := colVal_lt_of_length_lt hb ha hgt
+    constructor
+    · intro h; omega
+    · intro h
+      rcases h with h | ⟨h, _⟩ <;> omega
+
+example : colLabelToIndex "Z".toList < colLabelToIndex "AA".toList :=
+  (col_shortlex "Z".toList "AA".toList (by decide) (by decide) (by decide) (by decide)).mpr
+    (Or.inl (by decide))
+example : colLabelToIndex "AZ".toList < colLabelToIndex "BA".toList :=
+  (col_shortlex "AZ".toList "BA".toList (by decide) (by decide) (by decide) (by decide)).mpr
+    (Or.inr ⟨rfl, by decide⟩)
+example : ¬ "BA".toList < "AZ".toList := by decide
+
+example : colLabelToIndex "A".toList = 0 := by decide +kernel
+example : colLabelToIndex "Z".toList = 25 := by decide +kernel
+example : colLabelToIndex "AA".toList = 26 := by decide +kernel
+example : colLabelToIndex "XFD".toList = 16383 := by decide +kernel
+example : colLabelToIndex "xfd".toList = 16383 := by decide +kernel
+example : colIndexToLabel 0 = "A".toList := by
+  rw [show (0 : Int) = ((0 : Nat) : Int) from rfl, colIndexToLabel_lt (by omega)]; rfl
+example : colIndexToLabel 16383 = "XFD".toList := by
+  have := col_right_inv "XFD".toList (by decide) (by decide)
+  rwa [show colLabelToIndex "XFD".toList = 16383 by decide +kernel] at this
+
+/-! ## rows -/
+
+/-- `row_label_to_index(str(n)) = n - 1` and `row_index_to_label(n - 1) = str(n)` for every row
+    number `n ≥ 1`: row labels and zero-based row indices correspond by label = index + 1. -/
+theorem row_roundtrip : ∀ n : Nat, 1 ≤ n →
+    rowLabelToIndex (PyNum.natToDec n) = (n : Int) - 1 ∧
+    rowIndexToLabel ((n : Int) - 1) = PyNum.natToDec n := by
+  intro n hn
+  constructor
+  · unfold rowLabelToIndex
+    rw [PyNum.pyInt?_natToDec]
+    show max ((n : Int) - 1) (-1) = (n : Int) - 1
+    omega
+  · unfold rowIndexToLabel
+    rw [if_pos (by omega)]
+    unfold PyNum.intToDec
+    rw [if_neg (by omega)]
+    congr 1
+    omega
+
+example : rowLabelToIndex "1048576".toList = 1048575 := by
+  have h := (row_roundtrip 1048576 (by omega)).1
+  have hs : PyNum.natToDec 1048576 = "1048576".toList := by
+    simp [PyNum.natToDec_ge_ten, PyNum.natToDec_lt_ten, PyNum.digitChar]
+  rw [hs] at h
+  exact h
+
+/-- row indices are recovered from their labels: `row_label_to_index(row_index_to_label(r)) = r`
+    for every `r ≥ 0` -/
+theorem row_left_inv : ∀ r : Nat, rowLabelToIndex (rowIndexToLabel (r : Int)) = (r : Int) := by
+  intro r
+  have h := row_roundtrip (r + 1) (by omega)
+  have hc : ((r + 1 : Nat) : Int) - 1 = (r : Int) := by omega
+  rw [hc] at h
+  rw [h.2, h.1]
+
+/-! ## whole labels -/
+
+/-- a cell label written out: optional `$`, column letters, optional `$`, row number `str(n)` -/
+def fmt (ca : Bool) (cs : List Char) (ra : Bool) (n : Nat) : List Char :=
+  (if ca then ['$'] else []) ++ cs ++ (if ra then ['$'] else []) ++ PyNum.natToDec n
+
+/-- Decomposing a cell label — column letters of either case, a row number `n ≥ 1` written without
+    leading zeros, each optionally preceded by `$` — succeeds; the `$` markers are reported
+    faithfully, the indices are `n - 1` and the column number of the letters, and recomposing the
+    two parts with `to_label` gives the original label in upper case. -/
+theorem label_roundtrip : ∀ (ca ra : Bool) (cs : List Char) (n : Nat),
+    cs ≠ [] → (∀ c ∈ cs, isLetter c = true) → 1 ≤ n →
+    ∃ row col, extractLabel (fmt ca cs ra n) = some (row, col) ∧
+      toLabel row col = upper (fmt ca cs ra n) ∧
+      row.isAbsolute = ra ∧ col.isAbsolute = ca ∧
+      row.index = (n : Int) - 1 ∧ col.index = colLabelToIndex cs := by
+  intro ca ra cs n hcs hl hn
+  have hd : ∀ c ∈ PyNum.natToDec n, isDigit c = true := PyNum.natToDec_all_digits n
+  have hrow := row_roundtrip n hn
+  refine ⟨_, _, extractLabel_of_shape ca ra cs _ hcs hl (PyNum.natToDec_ne_nil n) hd,
+    ?_, rfl, rfl, hrow.1, rfl⟩
+  have hcol : colIndexToLabel (colLabelToIndex cs) = upper cs := by
+    rw [← col_case_insensitive cs]
+    exact col_right_inv (upper cs) (fun h => hcs (upper_eq_nil_iff.mp h)) (all_upper_upper hl)
+  unfold toLabel fmt
+  simp only [hrow.1, hrow.2, hcol]
+  rw [show (if ca then ['$'] else []) = dollar ca from rfl,
+    show (if ra then ['$'] else []) = dollar ra from rfl,
+    upper_append, upper_append, upper_append, upper_dollar, upper_dollar, upper_of_all_digits hd]
+  simp only [List.append_assoc]
+
+example : ∃ row col, extractLabel "$ab$12".toList = some (row, col) ∧
+    toLabel row col = "$AB$12".toList ∧ row.index = 11 ∧ col.index = 27 := by
+  obtain ⟨row, col, h1, h2, _, _, h5, h6⟩ :=
+    label_roundtrip true true "ab".toList 12 (by decide) (by decide) (by omega)
+  have hf : fmt true "ab".toList true 12 = "$ab$12".toList := by
+    simp [fmt, PyNum.natToDec_ge_ten, PyNum.natToDec_lt_ten, PyNum.digitChar]
+  rw [hf] at h1 h2
+  refine ⟨row, col, h1, ?_, ?_, ?_⟩
+  · rw [h2]; decide
+  · rw [h5]; rfl
+  · rw [h6]; decide +kernel
+
+/-- Anything `extract_label` decomposes has the shape of a cell label: optional `$`, one or more
+    ASCII letters, optional `$`, one or more ASCII digits.  Contrapositive: strings that are not
+    cell labels decompose to nothing. -/
+theorem non_label_decomposes_to_nothing : ∀ s : List Char, extractLabel s ≠ none →
+    ∃ (ca : Bool) (cs : List Char) (ra : Bool) (ds : List Char),
+      s = (if ca then ['$'] else []) ++ cs ++ (if ra then ['$'] else []) ++ ds ∧
+      cs ≠ [] ∧ (∀ c ∈ cs, isLetter c = true) ∧ ds ≠ [] ∧ (∀ c ∈ ds, isDigit c = true) := by
+  intro s h
+  unfold extractLabel at h
+  split at h
+  · exact absurd rfl h
+  · next ca cs ra ds hm =>
+    exact ⟨ca, cs, ra, ds, shape_of_matchLabel hm⟩
+
+/-- Conversely every string of that shape is decomposed (into exactly its parts). -/
+theorem label_shaped_decomposes : ∀ (ca ra : Bool) (cs ds : List Char),
+    cs ≠ [] → (∀ c ∈ cs, isLetter c = true) → ds ≠ [] → (∀ c ∈ ds, isDigit c = true) →
+    ∃ row col, extractLabel ((if ca then ['$'] else []) ++ cs ++ (if ra then ['$'] else []) ++ ds)
+        = some (row, col) ∧
+      row.label = ds ∧ col.label = cs ∧ row.isAbsolute = ra ∧ col.isAbsolute = ca := by
+  intro ca ra cs ds hcs hl hds hd
+  exact ⟨_, _, extractLabel_of_shape ca ra cs ds hcs hl hds hd, rfl, rfl, rfl, rfl⟩
+
+example : ∃ row col, extractLabel "$a007".toList = some (row, col) ∧ row.label = "007".toList ∧
+    col.label = "a".toList ∧ row.isAbsolute = false ∧ col.isAbsolute = true :=
+  label_shaped_decomposes true false "a".toList "007".toList (by decide) (by decide) (by decide)
+    (by decide)
+
+example : extractLabel "A1:".toList = none := by decide
+example : extractLabel "$$A1".toList = none := by decide
+example : extractLabel "1A".toList = none := by decide
+example : extractLabel "".toList = none := by decide
+example : extractLabel "é1".toList = none := by decide
+example : extractLabel "A01".toList ≠ none := by decide
+
+/-- The same round trip stated on the text of the label: letters (either case), then a non-empty
+    digit string that does not start with `0`, each optionally preceded by `$`.  Every such string
+    is a label in the sense of `label_roundtrip` (its digits are `str(n)` for some `n ≥ 1`), so it
+    decomposes and recomposes to itself in upper case. -/
+theorem label_roundtrip_syntactic : ∀ (ca ra : Bool) (cs ds : List Char),
+    cs ≠ [] → (∀ c ∈ cs, isLetter c = true) →
+    ds ≠ [] → (∀ c ∈ ds, isDigit c = true) → ds.head? ≠ some '0' →
+    ∃ row col,
+      extractLabel ((if ca then ['$'] else []) ++ cs ++ (if ra then ['$'] else []) ++ ds)
+        = some (row, col) ∧
+      toLabel row col
+        = upper ((if ca then ['$'] else []) ++ cs ++ (if ra then ['$'] else []) ++ ds) ∧
+      row.isAbsolute = ra ∧ col.isAbsolute = ca := by
+  intro ca ra cs ds hcs hl hds hd hz
+  obtain ⟨h1, h2⟩ := PyNum.natToDec_decVal ds hds hd hz
+  obtain ⟨row, col, e1, e2, e3, e4, _, _⟩ := label_roundtrip ca ra cs (PyNum.decVal 0 ds) hcs hl h1
+  unfold fmt at e1 e2
+  rw [h2] at e1 e2
+  exact ⟨row, col, e1, e2, e3, e4⟩
+
+example : ∃ row col, extractLabel "bc$907".toList = some (row, col) ∧
+    toLabel row col = "BC$907".toList := by
+  obtain ⟨row, col, h1, h2, _, _⟩ := label_roundtrip_syntactic false true "bc".toList "907".toList
+    (by decide) (by decide) (by decide) (by decide) (by decide)
+  exact ⟨row, col, h1, by rw [h2]; decide⟩
+
+/-- a leading zero in the row number is *not* preserved (`A01` recomposes to `A1`): the
+    no-leading-zero hypothesis of the round trip is needed -/
+theorem leading_zero_not_preserved : ∃ row col, extractLabel "A01".toList = some (row, col) ∧
+    toLabel row col = "A1".toList := by
+  have h := extractLabel_of_shape false false "A".toList "01".toList (by decide) (by decide)
+    (by decide) (by decide)
+  refine ⟨_, _, h, ?_⟩
+  have hr : rowLabelToIndex "01".toList = 0 := by
+    unfold rowLabelToIndex
+    rw [PyNum.pyInt?_digits _ (by decide) (by decide)]
+    simp [PyNum.decVal, PyNum.digitVal_eq]
+    omega
+  have hc : colLabelToIndex "A".toList = 0 := by decide +kernel
+  unfold toLabel
+  simp only [hr, hc]
+  rw [show (0 : Int) = ((0 : Nat) : Int) from rfl, colIndexToLabel_lt (by omega)]
+  simp [rowIndexToLabel, PyNum.intToDec, PyNum.natToDec_lt_ten, PyNum.digitChar]
+
+/-- negative indices have the empty label (`column_index_to_label(-1) = ''`,
+    `row_index_to_label(-1) = ''`) -/
+theorem negative_index_empty_label : ∀ i : Int, i < 0 →
+    colIndexToLabel i = [] ∧ rowIndexToLabel i = [] := by
+  intro i hi
+  constructor
+  · unfold colIndexToLabel
+    rw [colLoop_neg hi]; rfl
+  · unfold rowIndexToLabel
+    rw [if_neg (by omega)]
+
+example : (-3 : Int) < 0 := by decide
 
 end HotXL.Props.C19
